@@ -314,7 +314,7 @@ pub fn shrink(cfg: &RunCfg, ops: &[Op], class: &str, budget: usize) -> (RunCfg, 
 
 fn max_replica(o: &Op) -> usize {
     match o {
-        Op::Meld { r, from } => *r.max(from),
+        Op::Meld { r, from } | Op::StageForeign { r, from } => *r.max(from),
         Op::SameEdit { a, b, .. } => *a.max(b),
         Op::Send { from, to, .. } | Op::SendAll { from, to } => *from.max(to),
         other => other.replica().unwrap_or(0),
